@@ -28,6 +28,19 @@ TEXT_POOL = ['', 'a', 'hello', 'x y', ' lead', 'trail ', '<&>"\'', 'ünï', '中
              '\U0001f600', ']]>', 'tab\there']
 INT_POOL = [0, 1, -1, 7, 255, 256, -128, 127, -129, 2 ** 31 - 1, 2 ** 31, -2 ** 31, 2 ** 63, 2 ** 63 - 1, -2 ** 63, 2 ** 64 - 1,
             2 ** 64, 10 ** 30, -10 ** 30, 65535, 32767, -32768, 2 ** 32 - 1]
+# the boundary values of every leaf type are those of the C08 generators (c08.int_values / dt_values / dur_values / family_binary)
+INT_EDGE = sorted(set([9, 10, 11, 99, 100, 101, -9, -10, -99, -100]
+                      + [s * 2 ** k + d for k in (7, 8, 15, 16, 31, 32, 63, 64, 100, 128) for d in (-2, -1, 0, 1, 2) for s in (1, -1)]
+                      + [s * 10 ** k + d for k in (1, 2, 3, 5, 9, 10, 18, 19, 20, 38, 39) for d in (-1, 0, 1) for s in (1, -1)]))
+US_EDGE = [0, 1, 5, 9, 10, 99, 100, 999, 1000, 9999, 10000, 99999, 100000, 120000, 123000, 123400, 123450, 123456, 500000, 999999, 249, 248,
+           250000, 999990]
+OFF_EDGE = [None, None, None, 0, 0, 1, -1, 30, -30, 59, -59, 60, -60, 61, -61, 289, -289, 330, -330, 345, 570, -570, -210, 720, -720,
+            839, -839, 840, -840]
+DUR_DAYS = [0, 0, 0, 1, 3, 30, 400, 999999999]
+DUR_SECS = [0, 0, 1, 59, 60, 61, 3599, 3600, 3601, 3661, 86399]
+DUR_US = [0, 0, 1, 5, 249, 1000, 99999, 100000, 500000, 999999]
+BYTES_EDGE = [b'', b'a', b'ab', b'abc', b'abcd', b'\x00', b'\xff', b'\x00\x00\x00', b'\xff\xff\xff', b'\xfb\xff\xbf', b'\xfb', b'\xfb\xf0',
+              b'\x3e\x3f', b'\xf8', b'\xfc', b'\x00\xff\x80', bytes(range(0, 256, 7)), bytes(range(256))]
 
 
 def spyne_leaf_class(name):
@@ -130,7 +143,8 @@ def gen_leaf_value(rng, leaf):
         vals = leaf.get('cust', {}).get('values')
         if vals:
             return ('int', rng.choice(vals))
-        pool = [z for z in INT_POOL + [rng.randint(-10 ** 6, 10 ** 6)] if (lo is None or z >= lo) and (hi is None or z <= hi)]
+        pool = [z for z in INT_POOL + [rng.randint(-10 ** 6, 10 ** 6)] + rng.sample(INT_EDGE, 12)
+                if (lo is None or z >= lo) and (hi is None or z <= hi)]
         for b in (lo, hi):
             if b is not None:
                 pool.extend([b, b])
@@ -149,19 +163,24 @@ def gen_leaf_value(rng, leaf):
     if k == 'bool':
         return ('bool', rng.random() < 0.5)
     if k == 'bytes':
-        return ('bytes', rng.choice([b'', b'a', b'ab', b'abc', b'\x00\xff\x80', bytes(range(0, 256, 7)),
-                                      bytes(rng.randrange(256) for _ in range(rng.randint(1, 9)))]))
+        return ('bytes', rng.choice(BYTES_EDGE + [bytes(rng.randrange(256) for _ in range(rng.choice([1, 2, 3, 4, 5, 6, 7, 30, 31, 32, 58, 100])))
+                                                  for _ in range(6)]))
     if k == 'date':
-        return ('date', gen_date(rng))
+        return ('date', gen_date(rng, top=True))
     if k == 'time':
         return ('time', gen_time(rng))
     if k == 'datetime':
-        off = rng.choice([None, None, 0, 60, -60, 330, -210, -30, 839, -839, 1, -1])
+        off = rng.choice(OFF_EDGE)
         return ('datetime', gen_date(rng) + gen_time(rng) + (off,))
     if k == 'dur':
-        return ('dur', rng.choice([0, 1, 5, 999999, 10 ** 6, 60 * 10 ** 6, 3600 * 10 ** 6, 86400 * 10 ** 6, -1, -10 ** 6, -86400 * 10 ** 6,
-                                   86400 * 10 ** 6 * 400 + 3723000005, 249, 1000249, -3600 * 10 ** 6 - 5,
-                                   rng.randint(-10 ** 13, 10 ** 13)]))
+        # every shape of the (days, seconds, microseconds) fields, zero / non-zero each, both signs; timedelta's own range
+        d, s, us = rng.choice(DUR_DAYS), rng.choice(DUR_SECS), rng.choice(DUR_US)
+        if rng.random() < 0.2:
+            d, s, us = rng.choice([0, rng.randint(0, 400)]), rng.randint(0, 86399), rng.choice([0, rng.randint(0, 999999)])
+        n = (d * 86400 + s) * 10 ** 6 + us
+        if rng.random() < 0.35:
+            n = max(-n, -999999999 * 86400 * 10 ** 6)
+        return ('dur', n)
     if k == 'dec':
         c = leaf.get('cust', {})
         # (values whose str() is in scientific notation are C08's known finding, not repeated here)
@@ -178,8 +197,10 @@ def gen_leaf_value(rng, leaf):
     raise ValueError(k)
 
 
-def gen_date(rng):
+def gen_date(rng, top=False):
     y = rng.choice([1000, 1900, 1970, 1999, 2000, 2020, 2024, 2100, 9998, rng.randint(1000, 9998)])   # (zeep prints years < 1000 unpadded)
+    if top and rng.random() < 0.1:
+        y = 9999
     m = rng.randint(1, 12)
     leap = (y % 4 == 0 and y % 100 != 0) or y % 400 == 0
     dim = [31, 29 if leap else 28, 31, 30, 31, 30, 31, 31, 30, 31, 30, 31][m - 1]
@@ -188,7 +209,7 @@ def gen_date(rng):
 
 def gen_time(rng):
     return (rng.choice([0, 23, rng.randint(0, 23)]), rng.choice([0, 59, rng.randint(0, 59)]), rng.choice([0, 59, rng.randint(0, 59)]),
-            rng.choice([0, 0, 1, 5, 100000, 999999, 500000, 249, rng.randint(0, 999999)]))
+            rng.choice([0, 0, 0, rng.randint(0, 999999)] + rng.sample(US_EDGE, 4)))
 
 
 # ------------------------------------------------------------------ universes
@@ -535,7 +556,21 @@ def leaf_to_native(v):
     if k in ('int', 'text', 'bool', 'dec', 'dbl'):
         return v[1]
     if k == 'bytes':
-        return [v[1]]
+        # a ByteArray value is a sequence of chunks: which chunking stands for the bytes is picked by the bytes themselves
+        b = v[1]
+        n = len(b)
+        mode = (n + sum(b)) % 5
+        if n == 0:
+            return [[b''], [], (b'', b''), [b''], (b'',)][mode]
+        if mode == 0:
+            return [b]
+        if mode == 1:
+            return (b[:n // 2], b[n // 2:])
+        if mode == 2:
+            return [b[:1], b'', b[1:]]
+        if mode == 3:
+            return [b[:n // 3], b[n // 3:2 * n // 3], b[2 * n // 3:]]
+        return tuple(bytes([x]) for x in b) if n <= 12 else (b[:7], b[7:8], b[8:])
     if k == 'date':
         return datetime.date(*v[1])
     if k == 'time':
@@ -801,6 +836,52 @@ def g_xml(e):
                                       gopt(e.text, gtext), glist([g_xml(c) for c in e]))
 
 
+def g_doc(e):
+    """a node of a tree parsed with a parser that keeps everything -> Call.dnode term (character data: .text and the tails)"""
+    from lxml import etree
+    if e.tag is etree.Comment:
+        return 'DComment'
+    if e.tag is etree.ProcessingInstruction:
+        return 'DPI'
+    if not isinstance(e.tag, str):
+        raise ValueError('node kind outside the document model: %r' % e)
+    q = etree.QName(e)
+    atts = []
+    for k, v in sorted(e.attrib.items()):
+        qa = etree.QName(k)
+        atts.append('(%s, %s, %s)' % (gtext(qa.namespace or ''), gtext(qa.localname), gtext(v)))
+    content = ['(DText %s)' % gtext(e.text)] if e.text else []
+    for c in e:
+        content.append(g_doc(c))
+        if c.tail:
+            content.append('(DText %s)' % gtext(c.tail))
+    return '(DElt %s %s %s %s)' % (gtext(q.namespace or ''), gtext(q.localname), glist(atts), glist(content))
+
+
+def decorate(rng, root, n=None):
+    """XML comments and processing instructions are not part of what a document denotes under XML Schema: put some
+    between the items of arrays, between members, inside character data, in the envelope.  Returns what was done."""
+    from lxml import etree
+    elts = [e for e in root.iter() if isinstance(e.tag, str)]
+    done = []
+    for _ in range(n or rng.randint(1, 3)):
+        e = rng.choice(elts)
+        if rng.random() < 0.75:
+            node = etree.Comment(rng.choice([' c ', ' 3 ', 'true', ' <x/> ', '', 'P1D', ' 2020-01-01 ']))
+        else:
+            node = etree.ProcessingInstruction('app', rng.choice(['x="1"', '7', 'abc']))
+        if len(e) == 0 and e.text and rng.random() < 0.8:
+            k = rng.randint(0, len(e.text))
+            node.tail = e.text[k:] or None
+            e.text = e.text[:k] or None
+            e.insert(0, node)
+            done.append('%s inside the text of %s' % ('comment' if node.tag is etree.Comment else 'PI', etree.QName(e).localname))
+        else:
+            e.insert(rng.randrange(len(e) + 1), node)
+            done.append('%s among the children of %s' % ('comment' if node.tag is etree.Comment else 'PI', etree.QName(e).localname))
+    return done
+
+
 G_STYLE = {'wrapped': 'SWrapped', 'bare': 'SBare', 'out_bare': 'SOutBare'}
 
 
@@ -922,8 +1003,12 @@ class DecodeError(Exception):
     pass
 
 
-def _frac(us):
-    return ('.%06d' % us).rstrip('0') if us else ''
+def _frac(us, rng=None):
+    t = ('.%06d' % us).rstrip('0') if us else ''
+    if rng is not None and rng.random() < 0.25:
+        # trailing zeros (up to microsecond precision) and an explicit zero fraction are literals of the same value
+        t = (t or '.') + '0' * rng.randint(1 if not t else 0, 7 - len(t or '.'))
+    return t
 
 
 def _off(off, rng=None):
@@ -940,6 +1025,8 @@ def ref_leaf_text(v, rng=None):
     equivalent literals the schema allows (boolean 1/0, dateTime Z, trimmed fraction digits)"""
     k = v[0]
     if k == 'int':
+        if rng is not None and v[1] >= 0 and rng.random() < 0.2:
+            return '+%d' % v[1]                      # xs:integer allows an explicit plus sign
         return str(v[1])
     if k == 'text':
         return v[1]
@@ -961,10 +1048,10 @@ def ref_leaf_text(v, rng=None):
         return '%04d-%02d-%02d' % v[1]
     if k == 'time':
         h, mi, s, us = v[1]
-        return '%02d:%02d:%02d%s' % (h, mi, s, _frac(us))
+        return '%02d:%02d:%02d%s' % (h, mi, s, _frac(us, rng))
     if k == 'datetime':
         y, m, d, h, mi, s, us, off = v[1]
-        return '%04d-%02d-%02dT%02d:%02d:%02d%s%s' % (y, m, d, h, mi, s, _frac(us), _off(off, rng))
+        return '%04d-%02d-%02dT%02d:%02d:%02d%s%s' % (y, m, d, h, mi, s, _frac(us, rng), _off(off, rng))
     if k == 'dur':
         n = v[1]
         neg = n < 0
@@ -982,7 +1069,7 @@ def ref_leaf_text(v, rng=None):
         if mm:
             t += '%dM' % mm
         if ss or us:
-            t += '%d%sS' % (ss, _frac(us))
+            t += '%d%sS' % (ss, _frac(us, rng if us else None))
         if t:
             out += 'T' + t
         if out in ('P', '-P'):
